@@ -288,13 +288,13 @@ fn explore(ctx: &mut Ctx) {
 
     // Block shapes: number of blocks 1, 8, 9, many; a big run that closes a block early; a huge
     // first run at position 0 (first block without unset bits).
-    let ks: Vec<usize> = if thorough { vec![0, 1, 8, 9, 31, 32, 33, 100, 300, 600] } else { vec![0, 1, 8, 9, 32, 33, 100] };
+    let ks: Vec<usize> = if thorough { vec![0, 1, 8, 9, 31, 32, 33, 100, 300, 600] } else { vec![0, 1, 8, 9, 32, 33, 100, 600] };
     let bigs: Vec<u64> = if thorough { vec![1, 1 << 20, 1 << 45, 1 << 60, (1u64 << 62) + 1] } else { vec![1, 1 << 45, 1 << 60] };
     for &k in &ks {
         for &(g, l) in &[(1u64, 1u64), (1, 8), (9, 1), (70, 70), (1 << 20, 3)] {
             for &big_gap in &[0u64, 1, 1 << 33] {
                 for &big_len in &bigs {
-                    for &tail in &[0u64, 5] {
+                    for &tail in &[0u64, 5, 1 << 45] {
                         if big_gap == 0 && k > 0 {
                             continue; // would merge with the previous tiny run: not a run list of maximal runs
                         }
